@@ -10,21 +10,53 @@ Lemma nth_error_Some_lt {A} (l : list A) n x : nth_error l n = Some x -> (n < le
 Proof. intros H. apply nth_error_Some. congruence. Qed.
 
 (* ------------------------------------------------------------------ (b) Adjust::apply *)
-Lemma add_signed_in_range bits m a b : - 2 ^ (bits - 1) <= a + b < 2 ^ (bits - 1) -> add_signed bits m a b = Ok (a + b).
-Proof. intros H. unfold add_signed. replace ((- 2 ^ (bits - 1) <=? a + b) && (a + b <? 2 ^ (bits - 1))) with true by lia. reflexivity. Qed.
+(* iN::saturating_add: the mathematical sum when it fits the field, the nearer bound of the field otherwise *)
+Lemma sat_signed_spec bits v : 0 < bits ->
+  (- 2 ^ (bits - 1) <= v < 2 ^ (bits - 1) -> sat_signed bits v = v) /\
+  (v < - 2 ^ (bits - 1) -> sat_signed bits v = - 2 ^ (bits - 1)) /\
+  (2 ^ (bits - 1) <= v -> sat_signed bits v = 2 ^ (bits - 1) - 1) /\
+  - 2 ^ (bits - 1) <= sat_signed bits v < 2 ^ (bits - 1).
+Proof.
+  intros Hb. assert (Hp : 0 < 2 ^ (bits - 1)) by (apply Z.pow_pos_nonneg; lia).
+  unfold sat_signed. remember (2 ^ (bits - 1)) as h eqn:Eh. clear Eh.
+  destruct (Z.ltb_spec v (- h)); destruct (Z.leb_spec h v); repeat split; intros; lia.
+Qed.
 
-Lemma add16_in_range m a b : -32768 <= a + b < 32768 -> add16 m a b = Ok (a + b).
-Proof. intros H. apply add_signed_in_range. change (2 ^ (16 - 1)) with 32768. lia. Qed.
+Theorem sat_add16_spec : forall a b,
+  (-32768 <= a + b < 32768 -> sat_add16 a b = a + b) /\
+  (a + b < -32768 -> sat_add16 a b = -32768) /\
+  (32768 <= a + b -> sat_add16 a b = 32767) /\
+  -32768 <= sat_add16 a b < 32768.
+Proof. intros a b. unfold sat_add16. pose proof (sat_signed_spec 16 (a + b) ltac:(lia)) as H. change (2 ^ (16 - 1)) with 32768 in H. exact H. Qed.
 
-Lemma add32_in_range m a b : -2147483648 <= a + b < 2147483648 -> add32 m a b = Ok (a + b).
-Proof. intros H. apply add_signed_in_range. change (2 ^ (32 - 1)) with 2147483648. lia. Qed.
+Theorem sat_add32_spec : forall a b,
+  (-2147483648 <= a + b < 2147483648 -> sat_add32 a b = a + b) /\
+  (a + b < -2147483648 -> sat_add32 a b = -2147483648) /\
+  (2147483648 <= a + b -> sat_add32 a b = 2147483647) /\
+  -2147483648 <= sat_add32 a b < 2147483648.
+Proof. intros a b. unfold sat_add32. pose proof (sat_signed_spec 32 (a + b) ltac:(lia)) as H. change (2 ^ (32 - 1)) with 2147483648 in H. exact H. Qed.
 
-(* what a value record does to the placement of a glyph (no overflow) *)
+Lemma sat_add16_in_range a b : -32768 <= a + b < 32768 -> sat_add16 a b = a + b.
+Proof. apply sat_add16_spec. Qed.
+
+Lemma sat_add32_in_range a b : -2147483648 <= a + b < 2147483648 -> sat_add32 a b = a + b.
+Proof. apply sat_add32_spec. Qed.
+
+(* what a value record does to the placement of a glyph, every sum exact *)
 Definition placement_plus (p : placement) (xp yp : Z) : placement :=
   if (xp =? 0) && (yp =? 0) then p
   else match p with
        | PDistance x1 y1 => PDistance (x1 + xp) (y1 + yp)
        | PMarkAnchor i (ax, ay) an2 => PMarkAnchor i (ax + xp, ay + yp) an2
+       | PNone | PMarkOverprint _ | PCursiveAnchor _ _ _ _ => PDistance xp yp
+       end.
+
+(* ... and with the sums clamped to the field that holds them: what the code does for ALL inputs *)
+Definition placement_plus_sat (p : placement) (xp yp : Z) : placement :=
+  if (xp =? 0) && (yp =? 0) then p
+  else match p with
+       | PDistance x1 y1 => PDistance (sat_signed 32 (x1 + xp)) (sat_signed 32 (y1 + yp))
+       | PMarkAnchor i (ax, ay) an2 => PMarkAnchor i (sat_signed 16 (ax + xp), sat_signed 16 (ay + yp)) an2
        | PNone | PMarkOverprint _ | PCursiveAnchor _ _ _ _ => PDistance xp yp
        end.
 
@@ -41,63 +73,73 @@ Proof.
   destruct (Z.ltb_spec (v mod 65536) 32768); lia.
 Qed.
 
-(* A record without vertical advance adds x_advance to the kerning (advance adjustment) and (x_placement,
-   y_placement) to the placement; the build mode does not matter as long as the 16/32-bit sums fit. *)
-Theorem adjust_accumulates : forall m a x,
+(* Adjust::apply is total and the same in every build profile.  For EVERY record without vertical advance
+   (fields in i16 range, as ValueRecord::read_dep delivers them) and every glyph: x_advance is added to the
+   kerning and (x_placement, y_placement) to the placement, each sum clamped to the field that holds it. *)
+Theorem adjust_saturates : forall a x,
+  y_advance a = 0 ->
+  -32768 <= x_placement a < 32768 -> -32768 <= y_placement a < 32768 ->
+  adjust_apply a x =
+  set_kern (set_place x (placement_plus_sat (i_place x) (x_placement a) (y_placement a)))
+           (sat_signed 16 (i_kern x + x_advance a)).
+Proof.
+  intros a x Hy Hxp Hyp. unfold adjust_apply, placement_plus_sat. rewrite Hy.
+  destruct ((x_placement a =? 0) && (y_placement a =? 0)) eqn:E0.
+  - cbn [Z.eqb negb andb]. destruct (x_advance a =? 0) eqn:Ea; cbn [negb andb].
+    + assert (Hz : x_advance a = 0) by lia. rewrite Hz. destruct x; reflexivity.
+    + destruct x; reflexivity.
+  - cbn [Z.eqb]. unfold combine_distance, sat_add16, sat_add32.
+    destruct (i_place x) as [|x1 y1|bi [ax ay] an2|bi|e r an1 an2] eqn:Ep; try reflexivity.
+    rewrite !to_signed16_id by lia. reflexivity.
+Qed.
+
+Lemma placement_plus_sat_fits p xp yp : placement_fits p xp yp -> placement_plus_sat p xp yp = placement_plus p xp yp.
+Proof.
+  intros Hfit. unfold placement_plus_sat, placement_plus. destruct ((xp =? 0) && (yp =? 0)); [reflexivity|].
+  destruct p as [|x1 y1|bi [ax ay] an2|bi|e r an1 an2]; cbn [placement_fits] in Hfit; try reflexivity.
+  - pose proof (sat_add32_in_range x1 xp) as H1. pose proof (sat_add32_in_range y1 yp) as H2.
+    unfold sat_add32 in H1, H2. rewrite H1, H2 by lia. reflexivity.
+  - pose proof (sat_add16_in_range ax xp) as H1. pose proof (sat_add16_in_range ay yp) as H2.
+    unfold sat_add16 in H1, H2. rewrite H1, H2 by lia. reflexivity.
+Qed.
+
+(* whenever the 16/32-bit sums fit they are the mathematical sums *)
+Theorem adjust_accumulates : forall a x,
   y_advance a = 0 ->
   -32768 <= x_placement a < 32768 -> -32768 <= y_placement a < 32768 ->
   -32768 <= i_kern x + x_advance a < 32768 ->
   placement_fits (i_place x) (x_placement a) (y_placement a) ->
-  adjust_apply m a x =
-  Ok (set_kern (set_place x (placement_plus (i_place x) (x_placement a) (y_placement a))) (i_kern x + x_advance a)).
+  adjust_apply a x =
+  set_kern (set_place x (placement_plus (i_place x) (x_placement a) (y_placement a))) (i_kern x + x_advance a).
 Proof.
-  intros m a x Hy Hxp Hyp Hk Hfit. unfold adjust_apply, placement_plus. rewrite Hy.
-  destruct ((x_placement a =? 0) && (y_placement a =? 0)) eqn:E0.
-  - cbn [Z.eqb negb andb]. destruct (x_advance a =? 0) eqn:Ea; cbn [negb andb].
-    + assert (x_advance a = 0) by lia. rewrite add16_in_range by lia.
-      destruct x; cbn. unfold set_kern, set_place; cbn. f_equal. f_equal. lia.
-    + rewrite add16_in_range by lia. destruct x; reflexivity.
-  - cbn [Z.eqb]. unfold combine_distance.
-    destruct (i_place x) as [|x1 y1|bi [ax ay] an2|bi|e r an1 an2] eqn:Ep; cbn [placement_fits] in Hfit; cbn [bind].
-    + rewrite add16_in_range by lia. reflexivity.
-    + rewrite !add32_in_range by lia. cbn [bind]. rewrite add16_in_range by lia. reflexivity.
-    + rewrite !to_signed16_id by lia. rewrite !add16_in_range by lia. cbn [bind]. reflexivity.
-    + rewrite add16_in_range by lia. reflexivity.
-    + rewrite add16_in_range by lia. reflexivity.
+  intros a x Hy Hxp Hyp Hk Hfit. rewrite adjust_saturates by assumption.
+  rewrite placement_plus_sat_fits by assumption.
+  pose proof (sat_add16_in_range (i_kern x) (x_advance a) Hk) as H. unfold sat_add16 in H. rewrite H. reflexivity.
 Qed.
 
 (* what the code ignores: a record with a non-zero y_advance changes nothing at all (vertical advances are
    not supported), whatever its other fields say *)
-Theorem adjust_ignores_vertical_advance : forall m a x, y_advance a <> 0 -> adjust_apply m a x = Ok x.
+Theorem adjust_ignores_vertical_advance : forall a x, y_advance a <> 0 -> adjust_apply a x = x.
 Proof.
-  intros m a x Hy. unfold adjust_apply.
+  intros a x Hy. unfold adjust_apply.
   replace (y_advance a =? 0) with false by lia. cbn [negb andb].
   destruct ((x_placement a =? 0) && (y_placement a =? 0)); [|reflexivity].
   rewrite andb_false_r. reflexivity.
 Qed.
 
-Lemma adjust_apply_preserves m a x x' : adjust_apply m a x = Ok x' ->
-  i_id x' = i_id x /\ i_pos x' = i_pos x /\ i_lig x' = i_lig x /\ i_mark x' = i_mark x /\
-  (forall n i, place_wf n i (i_place x) -> place_wf n i (i_place x')).
+Lemma adjust_apply_preserves a x :
+  i_id (adjust_apply a x) = i_id x /\ i_pos (adjust_apply a x) = i_pos x /\ i_lig (adjust_apply a x) = i_lig x /\
+  i_mark (adjust_apply a x) = i_mark x /\
+  (forall n i, place_wf n i (i_place x) -> place_wf n i (i_place (adjust_apply a x))).
 Proof.
-  unfold adjust_apply. intros H.
+  unfold adjust_apply.
   destruct ((x_placement a =? 0) && (y_placement a =? 0)).
-  - destruct (negb (x_advance a =? 0) && (y_advance a =? 0)).
-    + destruct (add16 m (i_kern x) (x_advance a)); cbn [bind] in H; inversion H; subst. cbn. tauto.
-    + destruct (negb (y_advance a =? 0)); [inversion H; subst; tauto|].
-      destruct (add16 m (i_kern x) 0); cbn [bind] in H; inversion H; subst. cbn. tauto.
-  - destruct (y_advance a =? 0); [|inversion H; subst; tauto].
-    destruct (combine_distance m (i_place x) (x_placement a) (y_placement a)) as [p| | |] eqn:Ec; cbn [bind] in H; try discriminate.
-    destruct (add16 m (i_kern x) (x_advance a)); cbn [bind] in H; inversion H; subst. cbn. repeat split; try reflexivity.
-    intros n i Hw. unfold combine_distance in Ec.
-    destruct (i_place x) as [|x1 y1|bi [ax ay] an2|bi|e r an1 an2]; cbn [bind] in Ec.
-    + inversion Ec; exact I.
-    + destruct (add32 m x1 (x_placement a)); cbn [bind] in Ec; try discriminate.
-      destruct (add32 m y1 (y_placement a)); cbn [bind] in Ec; inversion Ec; exact I.
-    + destruct (add16 m ax _); cbn [bind] in Ec; try discriminate.
-      destruct (add16 m ay _); cbn [bind] in Ec; inversion Ec; subst. exact Hw.
-    + inversion Ec; exact I.
-    + inversion Ec; exact I.
+  - destruct (negb (x_advance a =? 0) && (y_advance a =? 0)); [cbn; tauto|].
+    destruct (negb (y_advance a =? 0)); cbn; tauto.
+  - destruct (y_advance a =? 0); [|tauto].
+    cbn. repeat split; try reflexivity.
+    intros n i Hw. unfold combine_distance.
+    destruct (i_place x) as [|x1 y1|bi [ax ay] an2|bi|e r an1 an2]; try exact I. exact Hw.
 Qed.
 
 (* ------------------------------------------------------------------ (b) SinglePos / PairPos *)
@@ -290,28 +332,85 @@ Qed.
 
 (* apply_kern: every glyph but the last gets the kerning of the pair it forms with its right neighbour
    (no glyph is skipped); the last glyph and everything else in the records is untouched *)
-Lemma apply_kern_cons m subs x y t :
-  apply_kern m subs (x :: y :: t) =
-  (k <- kern_pair m subs (i_id x) (i_id y) 0 ;; t' <- apply_kern m subs (y :: t) ;; Ok (set_kern x k :: t')).
+Lemma apply_kern_cons subs x y t :
+  apply_kern subs (x :: y :: t) =
+  (t' <- apply_kern subs (y :: t) ;; Ok (set_kern x (kern_pair subs (i_id x) (i_id y) 0) :: t')).
 Proof. reflexivity. Qed.
 
-Theorem apply_kern_pointwise : forall m subs l l',
-  apply_kern m subs l = Ok l' ->
+(* apply_kern on a parsed kern table is total; the kerning of a glyph is REPLACED by the pair value *)
+Theorem apply_kern_pointwise : forall subs l,
+  exists l', apply_kern subs l = Ok l' /\
   length l' = length l /\
-  forall k x y, nth_error l k = Some x -> nth_error l (S k) = Some y ->
-    exists kv, kern_pair m subs (i_id x) (i_id y) 0 = Ok kv /\ nth_error l' k = Some (set_kern x kv).
+  (forall k x y, nth_error l k = Some x -> nth_error l (S k) = Some y ->
+     nth_error l' k = Some (set_kern x (kern_pair subs (i_id x) (i_id y) 0))) /\
+  (forall x, nth_error l (pred (length l)) = Some x -> nth_error l' (pred (length l)) = Some x).
 Proof.
-  intros m subs. induction l as [|x l IH]; intros l' H.
-  - inversion H; subst. split; [reflexivity|]. intros k ? ? Hk. destruct k; discriminate.
+  intros subs. induction l as [|x l IH].
+  - exists []. split; [reflexivity|]. split; [reflexivity|]. split.
+    + intros k ? ? Hk. destruct k; discriminate.
+    + intros z Hz. discriminate.
   - destruct l as [|y t].
-    + inversion H; subst. split; [reflexivity|]. intros k ? ? Hk Hk2. destruct k; [discriminate|destruct k; discriminate].
-    + rewrite apply_kern_cons in H.
-      destruct (kern_pair m subs (i_id x) (i_id y) 0) as [kv| | |] eqn:Ek; cbn [bind] in H; try discriminate.
-      destruct (apply_kern m subs (y :: t)) as [t'| | |] eqn:Et; cbn [bind] in H; try discriminate.
-      inversion H; subst. destruct (IH t' eq_refl) as [Hl Hp]. split; [cbn [length] in *; lia|].
-      intros k a b Ha Hb. destruct k as [|k].
-      * cbn in Ha, Hb. inversion Ha; inversion Hb; subst. exists kv. split; [assumption|reflexivity].
-      * cbn [nth_error] in *. apply (Hp k a b Ha Hb).
+    + exists [x]. split; [reflexivity|]. split; [reflexivity|]. split.
+      * intros k ? ? Hk Hk2. destruct k; [discriminate|destruct k; discriminate].
+      * intros z Hz. exact Hz.
+    + destruct IH as (t' & Et & Hl & Hp & Hlast). exists (set_kern x (kern_pair subs (i_id x) (i_id y) 0) :: t').
+      rewrite apply_kern_cons, Et. cbn [bind]. split; [reflexivity|]. split; [|split].
+      * cbn [length] in *; lia.
+      * intros k a b Ha Hb. destruct k as [|k].
+        -- cbn in Ha, Hb. inversion Ha; inversion Hb; subst. reflexivity.
+        -- cbn [nth_error] in *. apply (Hp k a b Ha Hb).
+      * intros z Hz. cbn [length pred nth_error] in *. apply Hlast. exact Hz.
+Qed.
+
+(* one subtable of the per-pair accumulation `for sub_table in kern.sub_tables()`: vertical and cross-stream
+   subtables and subtables without the pair are skipped; override replaces, minimum takes the smaller value,
+   otherwise the value is ADDED — the mathematical sum when it fits i16, the nearer bound of i16 when not *)
+Definition kern_step (s : kern_subtable) (lf rt : Z) (kerning : Z) : Z :=
+  if negb (kern_is_horizontal (k_coverage s)) || kern_is_cross_stream (k_coverage s) then kerning
+  else match kern_lookup (k_data s) lf rt with
+       | None => kerning
+       | Some v => if kern_is_override (k_coverage s) then v
+                   else if kern_is_minimum (k_coverage s) then Z.min kerning v
+                   else if kerning + v <? -32768 then -32768
+                   else if 32768 <=? kerning + v then 32767
+                   else kerning + v
+       end.
+
+Theorem kern_pair_is_fold : forall subs lf rt k,
+  kern_pair subs lf rt k = fold_left (fun acc s => kern_step s lf rt acc) subs k.
+Proof.
+  induction subs as [|s t IH]; intros lf rt k; [reflexivity|].
+  cbn [kern_pair fold_left]. unfold kern_step at 2.
+  destruct (negb (kern_is_horizontal (k_coverage s)) || kern_is_cross_stream (k_coverage s)); [apply IH|].
+  destruct (kern_lookup (k_data s) lf rt) as [v|]; apply IH.
+Qed.
+
+(* plain additive subtables (horizontal, not cross-stream, neither override nor minimum) whose partial sums all
+   fit i16: the kerning of the pair is the sum of the values the subtables hold for it *)
+Definition kern_additive (s : kern_subtable) : Prop :=
+  kern_is_horizontal (k_coverage s) = true /\ kern_is_cross_stream (k_coverage s) = false /\
+  kern_is_override (k_coverage s) = false /\ kern_is_minimum (k_coverage s) = false.
+
+Definition kern_value (s : kern_subtable) (lf rt : Z) : Z :=
+  match kern_lookup (k_data s) lf rt with Some v => v | None => 0 end.
+
+Definition ksum (l : list Z) : Z := fold_right Z.add 0 l.
+
+Fixpoint partial_sums_fit (vs : list Z) (k : Z) : Prop :=
+  match vs with [] => True | v :: t => -32768 <= k + v < 32768 /\ partial_sums_fit t (k + v) end.
+
+Theorem kern_pair_sums : forall subs lf rt k,
+  Forall kern_additive subs -> partial_sums_fit (map (fun s => kern_value s lf rt) subs) k ->
+  kern_pair subs lf rt k = k + ksum (map (fun s => kern_value s lf rt) subs).
+Proof.
+  induction subs as [|s t IH]; intros lf rt k Ha Hf; [cbn; lia|].
+  inversion Ha as [|? ? (H1 & H2 & H3 & H4) Ha']; subst.
+  cbn [map partial_sums_fit] in Hf. destruct Hf as [Hk Hf].
+  cbn [kern_pair map]. rewrite H1, H2, H3, H4. cbn [negb orb].
+  assert (Hv : kern_value s lf rt = match kern_lookup (k_data s) lf rt with Some v => v | None => 0 end) by reflexivity.
+  destruct (kern_lookup (k_data s) lf rt) as [v|]; rewrite Hv in *; unfold ksum; cbn [fold_right]; fold (ksum (map (fun s0 => kern_value s0 lf rt) t)).
+  - rewrite sat_add16_in_range by exact Hk. rewrite (IH lf rt (k + v) Ha' Hf). lia.
+  - replace (k + 0) with k in Hf by lia. rewrite (IH lf rt k Ha' Hf). lia.
 Qed.
 
 (* ------------------------------------------------------------------ feature lookups: sorted, once each *)
